@@ -173,3 +173,33 @@ Definition repaired_expected : list fobs :=
 Lemma repaired_defects_stay_repaired :
   run_ops cfgZ store0 repaired = repaired_expected /\ run_ops cfgU store0 repaired = repaired_expected.
 Proof. split; vm_compute; reflexivity. Qed.
+
+(* a directory written under one storage mode, served after a restart under the other; more entries
+   written there; a second restart back: every read returns the same content as before *)
+Definition cross_reads : list fop :=
+  [FHttpGet hA false; FHttpGet hA true; FHttpHead hA;
+   FBatchRead [(hA, 5000); (hB, 70000)] false; FBatchRead [(hA, 5000); (hB, 70000)] true;
+   FBsRead (RN false hB 70000) 65536 0 [4464]; FBsRead (RN true hB 70000) 1 0 [];
+   FGetTree (hA, 5000) [(1, [(hB, 70000)]); (2, [])]].
+Definition cross_reads_expected : list fobs :=
+  [ORd (mkRd SOk (Some 5000) 1 5000); ORd (mkRd SOk None 1 5000); OHead SOk 5000;
+   ORds SOk [mkRd SOk (Some 5000) 1 5000; mkRd SOk (Some 70000) 2 70000];
+   ORds SOk [mkRd SOk (Some 5000) 1 5000; mkRd SOk (Some 70000) 2 70000];
+   ORd (mkRd SOk None 2 4464); ORd (mkRd SOk None 2 69999);
+   OTree SOk [1; 2]].
+
+Definition cross_mode (first other : bool) : list fop :=
+  [FHttpPut true hA 5000 XAbsent CeNone (good 1 5000) "r1";
+   FBatchUpdate [mkBU false hB 70000 CZstd (good 2 70000) "r2"]]
+  ++ cross_reads ++ [FRestart other] ++ cross_reads
+  ++ [FBsWrite (WN false hC 300) [mkWMsg true 0 300 true] false (good 3 300) "r3"; FHttpGet hC true]
+  ++ [FRestart first] ++ cross_reads ++ [FHttpGet hC false; FFindMissing [(hA, 5000); (hB, 70000); (hC, 300)]].
+Definition cross_mode_expected : list fobs :=
+  [OSt SOk; OSts SOk [SOk]] ++ cross_reads_expected ++ [OSt SOk] ++ cross_reads_expected
+  ++ [OSt SOk; ORd (mkRd SOk None 3 300)]
+  ++ [OSt SOk] ++ cross_reads_expected ++ [ORd (mkRd SOk (Some 300) 3 300); OMiss []].
+
+Lemma cross_mode_served :
+  run_ops (wired true 100000) store0 (cross_mode true false) = cross_mode_expected /\
+  run_ops (wired false 100000) store0 (cross_mode false true) = cross_mode_expected.
+Proof. split; vm_compute; reflexivity. Qed.
